@@ -133,11 +133,12 @@ PROPERTIES = {
     },
     "C12": {
         "title": "put reports exactly the changed border nodes",
-        "jobs": [{"bin": "e_misc", "args": ["putinfo"], "shards": 16}],
+        "jobs": [{"bin": "e_misc", "args": ["putinfo"], "shards": 16}, {"bin": "s_map", "args": ["all", "--oracle", "putinfo"], "shards": 12}],
         "accept": r"putinfo:|crash",
-        "deadline": {"quick": 60, "thorough": 300},
-        "rule": "exhaustive product (17 seed shapes x new keys around every stored key, layer-creating keys, both overloads) + overwrite of every key; "
-                "oracle = diff of the version words of all border nodes before/after",
+        "deadline": {"quick": 120, "thorough": 900},
+        "rule": "exhaustive product (seed shapes x new keys around every stored key, layer-creating keys, both overloads) + overwrite of every key; "
+                "plus every put / unique put transition of the C02 history search (closure over slicing-edge universes, all seeds to depth 4-5): "
+                "oracle = diff of the version words of all border nodes before/after against the reported modified / created nodes",
         "assumptions": ["quiescent tree, one session"],
     },
     "C13": {
